@@ -100,7 +100,7 @@ pub fn stream_with_directive(max_blocks: usize, max_toks: usize, stored_max: u32
             // make sure a block of the kind the directive needs exists
             use DKind::*;
             let toks = vec![GTok::Lit(65), GTok::Lit(66), GTok::Match { len: 5, dsel: 0, alt258: false }, GTok::Lit(67)];
-            let need_dyn = matches!(d.kind, Hlit287 | Hlit288 | Hdist31 | Hdist32 | OversubLit | OversubDist | OversubClc | IncompleteLit | IncompleteDist | IncompleteClc | Rep16First | RepOverrun | UnassignedLit | UnassignedDist | NoDistCodeMatch);
+            let need_dyn = matches!(d.kind, Hlit287 | Hlit288 | Hdist31 | Hdist32 | HlitHdistMax | OversubLit | OversubDist | OversubClc | IncompleteLit | IncompleteDist | IncompleteClc | Rep16First | RepOverrun | UnassignedLit | UnassignedDist | NoDistCodeMatch);
             let need_fixed = matches!(d.kind, Lit286 | Lit287 | Dist30 | Dist31);
             let need_coded = matches!(d.kind, DistTooFar);
             let need_stored = matches!(d.kind, BadNlen);
